@@ -245,17 +245,24 @@ class RunResult:
         self.returncode = returncode
         self.timed_out = timed_out
         self.ubsan = [l for l in stderr.splitlines() if "runtime error:" in l]
+        # IEEE division by zero is defined behaviour (inf/NaN); it is reported in recover mode and only C16 treats it as an event
+        self.fdz = [l for l in self.ubsan if "division by zero" in l]
+        self.ubsan_hard = [l for l in self.ubsan if "division by zero" not in l]
         self.asan = [l for l in stderr.splitlines() if re.search(r"ERROR: (AddressSanitizer|LeakSanitizer)", l)]
         self.shim_abort = [e for e in events if e.get("ev") == "shim_abort"]
 
     @property
     def sanitizer_reports(self) -> list[str]:
-        return self.asan + self.ubsan + [json.dumps(e) for e in self.shim_abort]
+        """memory-safety / undefined-behaviour reports (float-divide-by-zero excluded, see .fdz)"""
+        return self.asan + self.ubsan_hard + [json.dumps(e) for e in self.shim_abort]
 
     def by_ev(self, ev):
         return [e for e in self.events if e.get("ev") == ev]
 
     def crashed(self) -> bool:
+        # exit code 87 = "UBSan printed something"; with only float-divide-by-zero lines that is not a crash
+        if self.returncode == 87 and not self.ubsan_hard and not self.asan:
+            return self.timed_out
         return self.returncode != 0 or self.timed_out
 
 
